@@ -34,6 +34,34 @@ def addr_component(t, addr_param="addr"):
     return None
 
 
+def per_run_state(ctx, rule):
+    prog = ctx.prog
+    dp = prog.cls("msmart.discover._DiscoverProtocol")
+    ini = dp.methods.get("__init__")
+    dg = prog.func(DG)
+    s = summarize(prog, dg)
+    sp = dg.params[0]
+    used = set()
+    for _pc, _t, _n, rst in s.returns:
+        for k, v in rst.env.items():
+            if k.startswith(sp + ".") and v[0] == "mut":
+                used.add(k.split(".", 1)[1])
+    for attr in sorted(used):
+        fresh = False
+        if ini is not None:
+            for n in ast.walk(ini.node):
+                if isinstance(n, (ast.Assign, ast.AnnAssign)):
+                    tg = n.targets if isinstance(n, ast.Assign) else [n.target]
+                    if any(is_self_attr(t, attr) for t in tg) and n.value is not None and isinstance(n.value, ast.Call) and norm(n.value.func) in ("set", "list", "dict"):
+                        fresh = True
+        class_level = any(attr in k.attrs for k in prog.mro(dp)) or any(
+            isinstance(st, ast.AnnAssign) and isinstance(st.target, ast.Name) and st.target.id == attr and st.value is not None for st in dp.node.body)
+        ctx.count("per_run_attrs")
+        ctx.ob(rule, dp.qual, fresh and not class_level, f"self.{attr} is created fresh in __init__ for every discovery run", func=dp.qual, file=dp.module.rel,
+               construct=f"{attr} initialisation",
+               fail=f"{attr} is shared between discovery runs (class-level / not re-created in __init__): a later run drops every host an earlier run has seen")
+
+
 def run(ctx):
     prog = ctx.prog
     ctx.explanation = ("path conditions / value-flow terms of datagram_received for the de-duplication rule; interprocedural may-raise "
@@ -130,6 +158,8 @@ def run(ctx):
     ctx.ob("C18.a", DG, tasks_added, "the created task is added to self.tasks", func=DG, file=file, construct="self.tasks.add(task)",
            fail="the created task never reaches self.tasks: its device is not reported")
 
+    # the seen set and the task set are fresh per discovery run (instance attributes created in __init__)
+    per_run_state(ctx, "C18.a")
     # ---- C18.b ---------------------------------------------------------------------
     R = Raises(prog, Config(env=True, stop_at=[CONNECT]))
     data = Val(taint=True, kind="bytes")
